@@ -356,7 +356,7 @@ def minimise(b, prop, r, v, budget_s=40, max_exec=220):
     execs += 1
     vv = same_class(res, cls, prop)
     if vv is None:
-        return None, "replay of the recorded streams did not reproduce class %s (got %s)" % (cls, [vclass(x) for x in (res or {}).get("violations", [])] if res else err[-500:])
+        return None, "replay of the recorded streams did not reproduce class %s (got %s)" % (cls, [vclass(x) for x in (res.get("violations") or [])] if res else err[-500:])
     best = make_replay(b, prop, res, vv, streams=res["streams"])
 
     def attempt(cands):
@@ -424,7 +424,7 @@ def verify_replay(b, rf, prop):
     for _ in range(2):
         res, err = run_replay(b, rf)
         if same_class(res, cls, prop) is None:
-            return False, "replay diverged: %s" % ([vclass(x) for x in (res or {}).get("violations", [])] if res else err[-400:])
+            return False, "replay diverged: %s" % ([vclass(x) for x in (res.get("violations") or [])] if res else err[-400:])
         digests.add(res["log_digest"])
     if len(digests) != 1:
         return False, "replay log digests differ: %s" % digests
